@@ -302,7 +302,58 @@ def system_search(run, rnd, dates, n_pops):
                 for col, why in bad_cols:
                     run.hit({"kind": "lossless-variant-changes-results", "variant": label, "node": col},
                             f"'{label}' at {date} changes {col}: {why}", {"date": date, "variant": label, "node": col})
+    for date in dates:
+        narrow_table_faults(run, rnd, date)
     run.extra["fault_classes_injected"] = len(classes)
+
+
+def narrow_table_faults(run, rnd, date):
+    """The same fault classes on a NARROW table with many households (a user who computes one column supplies only the
+    columns it needs): few columns, more households than columns, the requested target needs them all."""
+    df, kinds = popgen.population(rnd, date, n_clusters=rnd.randint(10, 14), shuffle=True)
+    fks = ["p_id_ehepartner", "p_id_einstandspartner", "p_id_elternteil_1", "p_id_elternteil_2"]
+    nar = df[["p_id", "hh_id", "bruttokaltmiete_m_hh", "heizkosten_m_hh", *fks]].reset_index(drop=True)
+    T = ["bruttokaltmiete_y_hh", "heizkosten_y_hh"]
+    try:
+        popgen.simulate(nar, date, targets=T)
+    except Exception as ex:  # noqa: BLE001
+        run.broke("implementation-raises", f"narrow valid table at {date}: {type(ex).__name__}: {str(ex)[:200]}", "")
+        return
+    n = len(nar)
+    hh = nar["hh_id"]
+    multi = [h for h in hh.unique() if (hh == h).sum() > 1]
+    i = rnd.randrange(n)
+    j = rnd.choice([k for k in range(n) if k != i])
+    out = []
+    if multi:
+        row = rnd.choice(list(nar.index[hh == rnd.choice(multi)]))
+        for c in ("bruttokaltmiete_m_hh", "heizkosten_m_hh"):
+            d = nar.copy(); d.loc[row, c] = d.loc[row, c] + 25.0
+            out.append((f"{c} varies within a household (narrow table, {hh.nunique()} households, {nar.shape[1]} columns)", d))
+            d = nar.copy(); d.loc[row, c] = float("nan")
+            out.append((f"{c} is missing (NaN) for one member of a household (narrow table)", d))
+    d = nar.copy(); d.loc[i, "p_id"] = d.loc[j, "p_id"]; out.append(("duplicate p_id (narrow table)", d))
+    for fk in fks:
+        d = nar.copy(); d.loc[i, fk] = int(nar["p_id"].max()) + 17; out.append((f"{fk} to a missing person (narrow table)", d))
+        d = nar.copy(); d.loc[i, fk] = d.loc[i, "p_id"]; out.append((f"{fk} to oneself (narrow table)", d))
+    for label, bad in out:
+        run.case({"fault": label, "date": date})
+        for suffix, tab in (("", bad), (" (rows reversed)", bad.iloc[::-1].reset_index(drop=True))):
+            try:
+                popgen.simulate(tab, date, targets=T)
+            except Exception:  # noqa: BLE001  rejected, as the property demands
+                continue
+            cls = label
+            for fk in fks:
+                cls = cls.replace(fk, "<pointer>")
+            for c in ("bruttokaltmiete_m_hh", "heizkosten_m_hh"):
+                cls = cls.replace(c, "<hh column>")
+            cls = cls.split(" (narrow table")[0] + " (narrow table)"
+            run.hit({"kind": "malformed-data-accepted", "fault": cls},
+                    f"a table with the fault '{label}'{suffix} is simulated at {date} instead of being rejected",
+                    {"date": date, "fault": label, "targets": T,
+                     "data": {c: [str(x) for x in tab[c].tolist()] for c in tab.columns}})
+            break
 
 
 def table_correspondence(run, rnd, n_cases):
